@@ -232,6 +232,88 @@ func checkC03(c *Ctx, r *Report) {
 		r.funcs[fnID(fn)] = true
 		c03Verifier(c, r, fn, crc, false)
 	}
+	// R3.6: an encoded frame is final: outside package packet nothing writes into the bytes a request's
+	// Bytes() returned (a wrapper that patches the unit id after encoding sends a frame whose
+	// trailer is no longer the CRC of what precedes it)
+	{
+		reqT := c.pkg("packet").Type("Request")
+		n, bad := 0, 0
+		for _, rel := range []string{"", "server"} {
+			for _, fn := range c.allFuncs(rel) {
+				T := map[ssa.Value]bool{}
+				for changed := true; changed; {
+					changed = false
+					for _, b := range fn.Blocks {
+						for _, in := range b.Instrs {
+							v, isVal := in.(ssa.Value)
+							if !isVal || T[v] {
+								continue
+							}
+							switch x := in.(type) {
+							case *ssa.Call:
+								cm := x.Common()
+								name, recvT := "", types.Type(nil)
+								if cm.IsInvoke() {
+									name, recvT = cm.Method.Name(), cm.Value.Type()
+								} else if sc := cm.StaticCallee(); sc != nil && sc.Signature.Recv() != nil {
+									name, recvT = sc.Name(), sc.Signature.Recv().Type()
+								}
+								if name == "Bytes" && recvT != nil && reqT != nil {
+									if types.Identical(recvT, reqT.Type()) || types.Implements(recvT, reqT.Type().Underlying().(*types.Interface)) {
+										if nt, ok := deref(recvT).(*types.Named); ok && nt.Obj().Pkg() != nil && nt.Obj().Pkg().Path() == c.pkg("packet").Pkg.Path() {
+											T[v], changed = true, true
+										}
+									}
+								}
+							case *ssa.Slice:
+								if T[x.X] {
+									T[v], changed = true, true
+								}
+							case *ssa.Phi:
+								for _, e := range x.Edges {
+									if T[e] {
+										T[v], changed = true, true
+									}
+								}
+							case *ssa.IndexAddr:
+								if T[x.X] {
+									T[v], changed = true, true
+								}
+							}
+						}
+					}
+				}
+				if len(T) == 0 {
+					continue
+				}
+				n++
+				for _, b := range fn.Blocks {
+					for _, in := range b.Instrs {
+						what := ""
+						switch x := in.(type) {
+						case *ssa.Store:
+							if T[x.Addr] {
+								what = "store into"
+							}
+						case *ssa.Call:
+							if bi, ok := x.Common().Value.(*ssa.Builtin); ok && (bi.Name() == "copy" || bi.Name() == "append") && len(x.Common().Args) > 0 && T[x.Common().Args[0]] {
+								what = bi.Name() + " into"
+							}
+						}
+						if what != "" {
+							bad++
+							r.fail("R3.6", fnID(fn), what+" the bytes a request's Bytes() returned: the frame that is sent no longer ends with the CRC of what precedes it", c.pos(in.Pos()), "", "frame-modified-after-encoding")
+						}
+					}
+				}
+			}
+		}
+		r.instance("R3.6", n)
+		if bad == 0 {
+			r.ok("R3.6", "modbus", fmt.Sprintf("none of the %d functions outside package packet that obtain an encoded request frame writes into it", n), "-", true)
+		}
+		r.floor("R3.6", 2)
+	}
 	// R3.3: the RTU clients enforce the CRC because the functions their constructors install are
 	// CRC-verifying ones (the C12 R12.1/R12.2 analysis)
 	{
@@ -621,6 +703,30 @@ func c03Constants(c *Ctx, r *Report, crc *ssa.Function) {
 		r.ok("R3.4", id, "the accumulator's initial value 0xFFFF occurs in the routine", pos, true)
 	} else {
 		r.fail("R3.4", id, "the initial value 0xFFFF of the Modbus CRC does not occur in the routine", pos, "", "crc-init")
+	}
+	// the checksum of the empty byte string is the initial value itself: interpreted with
+	// len(data) == 0, every return yields 0xFFFF
+	{
+		an := &Analysis{ctx: c, u: newUniverse(), top: crc}
+		fr := an.newFrame(crc, nil, nil)
+		if data, ok := fr.vals[crc.Params[0]].(ASlice); ok {
+			fr.run(DNF{Conj{atomEQ(data.ln, affConst(0))}})
+			okEmpty := len(fr.returns) > 0
+			for _, rs := range fr.returns {
+				if len(rs.state) == 0 {
+					continue
+				}
+				v, isI := rs.vals[0].(AInt)
+				if !isI || !rs.state.entails(atomEQ(fr.useIn(v, rs.state, "crc"), affConst(0xffff))) {
+					okEmpty = false
+				}
+			}
+			if okEmpty {
+				r.ok("R3.4", id, "for the empty byte string the routine returns the initial value 0xFFFF", pos, true)
+			} else {
+				r.fail("R3.4", id, "for the empty byte string the routine does not return the initial value 0xFFFF", pos, "", "crc-empty-input")
+			}
+		}
 	}
 	if len(tables) == 0 {
 		if consts[0xA001] {
